@@ -66,7 +66,8 @@ def corpus():
 
 
 def rand_dbpm(rng):
-    return rng.choice([None, "", "*", "120", "120.5", "100:200", "90.5:91", "150:150", "180:180.000", "abc", "1:x", ":", "1:2:3", " 150 ", "-5", "x:1"])
+    return rng.choice([None, "", "*", "120", "120.5", "100:200", "90.5:91", "150:150", "180:180.000", "abc", "1:x", ":", "1:2:3", " 150 ", "-5", "x:1",
+                       "150:", ":150", "150:300:", "0=240", " : ", "1:", "1e2", ".5", "60:.5e2"])
 
 
 def gen(rng, i, tier):
@@ -85,7 +86,7 @@ def gen(rng, i, tier):
         if key == "FREEZES" and (kind != "SM" or rng.random() < 0.6):
             continue
         if st != "absent":
-            sf.append([key, "" if st == "empty" else ("0.5" if key == "OFFSET" else "2.000=0.750")])
+            sf.append([key, "" if st == "empty" else (rng.choice(["0.5", "0.5", ".5", "-.25", "5e-3", "+1.5", " 0.125\n", "-1.25E-2"]) if key == "OFFSET" else "2.000=0.750")])
     d = rand_dbpm(rng)
     if rng.random() < 0.7:
         sf.append(["DISPLAYBPM", d])
@@ -103,7 +104,7 @@ def gen(rng, i, tier):
         for key in ("OFFSET", "DISPLAYBPM"):
             st = rng.choice(["absent", "empty", "value"])
             if st != "absent":
-                chart.append([key, "" if st == "empty" else ("-2.25" if key == "OFFSET" else (rand_dbpm(rng) or "77"))])
+                chart.append([key, "" if st == "empty" else (rng.choice(["-2.25", "-2.25", ".5", "-.25", "5e-3", "+1.5", " 0.125\n"]) if key == "OFFSET" else (rand_dbpm(rng) or "77"))])
     return {"kind": kind, "sf": sf, "ck": ck, "chart": chart, "ign": rng.random() < 0.25}
 
 
